@@ -63,8 +63,11 @@ def run_check(pid, tier, seed, t0):
         only = None
         if isinstance(key, tuple):
             key, only = key
+        qf = getattr(prop, "QUICK_FILTER", {}).get(key)
         for case in reg[key].cases:
             if only is not None and not re.search(only, case.name):
+                continue
+            if tier == "quick" and qf is not None and not qf(case.name):
                 continue
             for m in (getattr(reg[key], "modes", None) or modes):
                 tasks.append({"kind": "verify", "key": key, "case": case.name,
